@@ -164,6 +164,34 @@ func c12EncInit() {
 
 // c12EncVals returns pool values usable for a field of kind fd (strings: valid UTF-8 only).
 func c12EncVals(fd protoreflect.FieldDescriptor, pool []c12Enc) []c12LV {
+	if len(pool) == 0 {
+		return nil
+	}
+	key := c12EncKey{&pool[0], fd.Kind()}
+	c12EncMu.Lock()
+	cached, ok := c12EncCache[key]
+	c12EncMu.Unlock()
+	if ok {
+		return cached
+	}
+	out := c12EncValsBuild(fd, pool)
+	c12EncMu.Lock()
+	c12EncCache[key] = out
+	c12EncMu.Unlock()
+	return out
+}
+
+type c12EncKey struct {
+	pool *c12Enc
+	kind protoreflect.Kind
+}
+
+var (
+	c12EncMu    sync.Mutex
+	c12EncCache = map[c12EncKey][]c12LV{}
+)
+
+func c12EncValsBuild(fd protoreflect.FieldDescriptor, pool []c12Enc) []c12LV {
 	var out []c12LV
 	for _, e := range pool {
 		switch fd.Kind() {
